@@ -25,6 +25,12 @@ Theorem C16_reject_at_call : forall (pre : list (@lacall comp)) a c,
   ((exists e, la_step ceqb a c = Er e) <-> violates a c).
 Proof. exact (la_reject_at_call ceqb ceqb_spec). Qed.
 
+(* a caller that catches the rejections and goes on with the same object: the rejected calls leave no trace - the
+   definition is the one the accepted calls alone build (so C16_accepted_definition applies to it) *)
+Theorem C16_rejected_calls_leave_no_trace : forall (calls : list (@lacall comp)),
+  la_run ceqb [] (accepted_calls ceqb [] calls) = Ok (fst (la_run_lenient ceqb [] calls)).
+Proof. intros calls. exact (la_run_lenient_accepted ceqb calls []). Qed.
+
 (* ... with a configuration error *)
 Theorem C16_rejection_is_config_error : forall (a : @larch comp) c e, la_step ceqb a c = Er e -> e = EConfig.
 Proof. exact (la_rejection_is_config_error ceqb). Qed.
@@ -64,6 +70,7 @@ End C16.
 Print Assumptions C16_accepted_definition.
 Print Assumptions C16_reject_at_call.
 Print Assumptions C16_rejection_is_config_error.
+Print Assumptions C16_rejected_calls_leave_no_trace.
 Print Assumptions C16_str_is_list.
 Print Assumptions C16_rule_one_subject.
 Print Assumptions C16_rule_needs_architecture.
